@@ -147,6 +147,17 @@ def run_poll(world, rows, profile, client=None, role="primary", shared_args=None
         mparams = copy.deepcopy(p["model_parameters"])
     extra_kw = {} if p.get("omit_model_parameters") else dict(model_parameters=mparams)
     cur = feed_frame(rows, extra_feed_cols)
+    if shared_args is not None and shared_args.get("inplace_feed"):
+        # a pipeline that keeps ONE live frame and overwrites its raw columns in place between polls (possible whenever the
+        # set and order of rows is unchanged); whatever the library may have written into that object stays there
+        old = shared_args.get("feed")
+        if old is not None and len(old) == len(cur) and old["geographic_unit_fips"].tolist() == cur["geographic_unit_fips"].tolist():
+            for c in cur.columns:
+                old[c] = cur[c].to_numpy()
+            cur = old
+            rec.extra["feed_frame_reused_in_place"] = True
+        else:
+            shared_args["feed"] = cur
     bucket = seams.STORAGE.bucket
     put0 = len(bucket.put_log)
     fit0 = len(seams.SOLVER.calls)
